@@ -45,8 +45,8 @@ type ProcSpec struct {
 	Stdin    string
 	Cpus     int
 	Env      map[string]string
-	Steps    []TimeStep // for pause / --follow: time plan, then SIGINT
-	LongRun  bool       // process is expected to run until SIGINT
+	Steps    []TimeStep                                      // for pause / --follow: time plan, then SIGINT
+	LongRun  bool                                            // process is expected to run until SIGINT
 	OnEdit   func(e *EditFault, readsSoFar, writesSoFar int) // applies a mid-run edit (controller context: everybody else is blocked)
 }
 
@@ -240,6 +240,7 @@ func runProc(spec *ProcSpec) (res ProcResult) {
 		var advanceUntil time.Time
 		advancing := false
 		interrupted := false
+		var overtime time.Time
 		idleQuanta := 0
 		const idleLimit = 12 // 3 simulated seconds without anybody runnable = hang
 		for iter := 0; ; iter++ {
@@ -253,6 +254,15 @@ func runProc(spec *ProcSpec) (res ProcResult) {
 				break
 			}
 			parked := s.Parked()
+			if os.Getenv("VERIF_DEBUG_CTRL") != "" && iter%50 == 0 {
+				fmt.Fprintf(os.Stderr, "ctrl iter=%d now=%s parked=%d advancing=%v interrupted=%v idle=%d steps=%d\n", iter, time.Now().Format("15:04:05.000"), len(parked), advancing, interrupted, idleQuanta, len(steps))
+			}
+			if !overtime.IsZero() && time.Now().After(overtime) {
+				// the time plan is over (and the interrupt, if any, was delivered) but the process keeps itself
+				// busy with timers: it will never end
+				res.Hang = true
+				break
+			}
 			if len(parked) > 0 {
 				d := Decision{}
 				for _, g := range parked {
@@ -292,6 +302,9 @@ func runProc(spec *ProcSpec) (res ProcResult) {
 				interrupted = true
 				s.Interrupt()
 				continue
+			}
+			if overtime.IsZero() {
+				overtime = time.Now().Add(120 * time.Second)
 			}
 			idleQuanta++
 			if idleQuanta > idleLimit || iter > 2_000_000 {
